@@ -21,6 +21,11 @@ def main(argv):
         log("no check for %s: %s" % (prop, e))
         return 2
     try:
+        from .facts import prune_cache
+        prune_cache()
+    except Exception:
+        pass
+    try:
         return mod.run(tier)
     except CheckError as e:
         log("CHECK-ERROR property=%s: %s" % (prop, e))
